@@ -55,7 +55,8 @@ func Build(s Spec) (tms20.TileMatrixSet, error) {
 		oy = *s.OriginY
 		axes = []string{"Y", "X"} // not swapped by tms20: the point is read as x,y
 	}
-	t := tms20.TileMatrixSet{CRS: fakeCRS{}, OrderedAxes: axes, TileMatrices: map[tms20.TMID]tms20.TileMatrix{}}
+	// all synthetic sets carry the same (legal, non-empty) identifier: an id is a label, not a key
+	t := tms20.TileMatrixSet{ID: "VerifSynthetic", CRS: fakeCRS{}, OrderedAxes: axes, TileMatrices: map[tms20.TMID]tms20.TileMatrix{}}
 	extent := s.Cell * float64(tw) * float64(uint(1)<<uint(s.Depth))
 	for id := 0; id <= s.Depth; id++ {
 		cs := s.Cell * float64(uint(1)<<uint(s.Depth-id))
